@@ -141,6 +141,26 @@ def run(ctx):
                 events += ev
                 ctx.count([text, k])
                 k += 1
+        # every program of the declarative error-trap family (all fault kinds incl. faults raised inside an expression,
+        # all RESUME forms), suspended at every boundary - in particular between the failing statement and the handler
+        from .. import interp_check
+        fam = interp_check.family_programs(ctx, 'err')
+        if ctx.quick():
+            fam = [fam[i] for i in sorted(rng.sample(range(len(fam)), 16))] + [q for q in fam if 'dz' in str(q) or '\\\\' in str(q)][:0]
+        for prog in fam:
+            prog.pop('tag', None)
+            text = G.render(prog)
+            progs.append(prog)
+            k = 1
+            while k <= 40:
+                ev, reached = G.run_suspended(text, len(progs), prog['vars'], k, sf, tmp, budget=300)
+                if not reached:
+                    break
+                cases.append((text, k))
+                owner += [len(cases) - 1] * len(ev)
+                events += ev
+                ctx.count([text, k])
+                k += 1
         slim = [{k_: v for k_, v in e.items() if k_ not in ('raw', 'detail')} for e in events]
         verdicts = ctx.validate('Interp_Trace', slim, header={'progs': progs}, timeout=3000)
         ctx.cov['traces_validated_against_impl'] += len(cases)
